@@ -1,6 +1,8 @@
 package balance
 
 import (
+	"time"
+
 	"github.com/aquilax/hranoprovod-cli/cmd/hranoprovod-cli/v3/internal/csv"
 	"github.com/aquilax/hranoprovod-cli/cmd/hranoprovod-cli/v3/internal/print"
 	"github.com/aquilax/hranoprovod-cli/cmd/hranoprovod-cli/v3/internal/register"
@@ -61,9 +63,11 @@ func Harness_compose_per_day() {
 	unit := hPerDayUnits[verifChoose("unit", len(hPerDayUnits))]
 	verifLabel("unit", unit)
 	db, _ := shared.HGenBook()
-	sameDate := verifChoose("same-date", 2)
-	d1, _ := shared.NewLogNodeFromElements(shared.HTime(0), shared.HGenRawDay(E), nil)
-	d2, _ := shared.NewLogNodeFromElements(shared.HTime(1-sameDate), shared.HGenRawDay(E), nil)
+	// symbolic dates: equal, adjacent, same day of month in another month, in any order
+	t1, _ := time.Parse("2006/01/02", verifDay("day", "2006/01/02", 400))
+	t2, _ := time.Parse("2006/01/02", verifDay("day", "2006/01/02", 400))
+	d1, _ := shared.NewLogNodeFromElements(t1, shared.HGenRawDay(E), nil)
+	d2, _ := shared.NewLogNodeFromElements(t2, shared.HGenRawDay(E), nil)
 	whole := hOut(unit, db, []*shared.LogNode{d1, d2})
 	part1 := hOut(unit, db, []*shared.LogNode{d1})
 	part2 := hOut(unit, db, []*shared.LogNode{d2})
